@@ -40,6 +40,7 @@ type World struct {
 	SSA   map[string]*ssa.Package
 
 	funcs   map[string]*ssa.Function // short name -> function (module functions incl. closures)
+	renamed map[string]string        // new name -> known name, for functions recognised as renamed
 	cg      *callgraph.Graph
 	NumFunc int
 }
@@ -90,6 +91,7 @@ func Load(repo string, env []string) (*World, error) {
 	}
 	prog.Build()
 	w.indexFuncs()
+	w.resolveRenames()
 	w.buildExpansion()
 	return w, nil
 }
@@ -101,12 +103,88 @@ func Short(s string) string {
 	return s
 }
 
+// Pinned lists the named functions (name -> signature) of the tree the rules
+// were written against; see World.resolveRenames.
+var Pinned map[string]string
+
+// funcAlias maps a function that was renamed since the pinned tree to the name
+// the rules know it by.
+var funcAlias = map[*ssa.Function]string{}
+
+// Renamed reports the renames that were recognised (new name -> known name).
+func (w *World) Renamed() map[string]string { return w.renamed }
+
+// resolveRenames: a known function that is gone, while exactly one function
+// unknown to the rule base has the same receiver (or package) and the same
+// signature, is taken to be that function under a new name. From then on the
+// new function answers to the known name.
+func (w *World) resolveRenames() {
+	w.renamed = map[string]string{}
+	funcAlias = map[*ssa.Function]string{}
+	if len(Pinned) == 0 {
+		return
+	}
+	prefix := func(n string) string {
+		if i := strings.LastIndex(n, "."); i >= 0 {
+			return n[:i]
+		}
+		return ""
+	}
+	var unknown []*ssa.Function
+	for n, f := range w.funcs {
+		if f.Parent() == nil {
+			if _, ok := Pinned[n]; !ok {
+				unknown = append(unknown, f)
+			}
+		}
+	}
+	claimed := map[*ssa.Function]int{}
+	match := map[string]*ssa.Function{}
+	for n, sig := range Pinned {
+		if _, ok := w.funcs[n]; ok {
+			continue
+		}
+		var cands []*ssa.Function
+		for _, f := range unknown {
+			if prefix(FuncName(f)) == prefix(n) && SigKey(f) == sig {
+				cands = append(cands, f)
+			}
+		}
+		if len(cands) == 1 {
+			match[n] = cands[0]
+			claimed[cands[0]]++
+		}
+	}
+	for n, f := range match {
+		if claimed[f] != 1 {
+			continue
+		}
+		w.renamed[FuncName(f)] = n
+		delete(w.funcs, FuncName(f))
+		funcAlias[f] = n
+		w.funcs[n] = f
+	}
+}
+
 // FuncName gives the short qualified name of an SSA function:
 // "syncer.(*RedisOutput).sendCmdsBatch", "pkg/redis.KeyToSlot",
 // closures as "parent$1".
 func FuncName(f *ssa.Function) string {
 	if f == nil {
 		return "<nil>"
+	}
+	if a, ok := funcAlias[f]; ok {
+		return a
+	}
+	if p := f.Parent(); p != nil {
+		// closures of a renamed function keep the known name as their prefix
+		root := p
+		for root.Parent() != nil {
+			root = root.Parent()
+		}
+		if a, ok := funcAlias[root]; ok {
+			return a + strings.TrimPrefix(Short(f.RelString(nil)), Short(root.RelString(nil)))
+		}
 	}
 	return Short(f.RelString(nil))
 }
@@ -247,4 +325,31 @@ func (w *World) FuncDecl(pkgShort, recv, name string) (*ast.FuncDecl, *packages.
 		}
 	}
 	return nil, p
+}
+
+
+// SigKey renders a function's parameter and result types without their names.
+func SigKey(f *ssa.Function) string {
+	var b strings.Builder
+	b.WriteString("(")
+	ps := f.Signature.Params()
+	for i := 0; i < ps.Len(); i++ {
+		if i > 0 {
+			b.WriteString(",")
+		}
+		b.WriteString(ps.At(i).Type().String())
+	}
+	if f.Signature.Variadic() {
+		b.WriteString("...")
+	}
+	b.WriteString(")(")
+	rs := f.Signature.Results()
+	for i := 0; i < rs.Len(); i++ {
+		if i > 0 {
+			b.WriteString(",")
+		}
+		b.WriteString(rs.At(i).Type().String())
+	}
+	b.WriteString(")")
+	return b.String()
 }
